@@ -20,7 +20,7 @@ func init() { register("srv", "gRPC sidecar handler through an in-memory stream 
 // request symbols: gs:<id> | enc:<payload> | dec:<part>:<payload>:<variant g|bad|none> | empty
 type srvCase struct {
 	Reqs []string `json:"reqs"`
-	Obs  []int    `json:"obs"`  // 0 session-ok, 1 enc, 100+p dec, 3 error, 4 panic / nil response
+	Obs  []int    `json:"obs"` // 0 session-ok, 1 enc, 100+p dec, 3 error, 4 panic / nil response
 	Note string   `json:"note,omitempty"`
 	Sent int      `json:"sent"`
 	Viol []string `json:"viol,omitempty"`
@@ -107,6 +107,15 @@ func (e *srvEnv) request(sym string) *pb.SessionRequest {
 			d := append([]byte(nil), g.Data...)
 			d[len(d)/2] ^= 0x10
 			rec = &pb.DataRowRecord{Data: d, Key: g.Key}
+		case "noparent": // a key record without parent key meta
+			g := e.recs[[2]int{a, b}]
+			rec = &pb.DataRowRecord{Data: g.Data, Key: &pb.EnvelopeKeyRecord{Key: g.Key.Key, Created: g.Key.Created}}
+		case "emptykey":
+			rec = &pb.DataRowRecord{Data: e.recs[[2]int{a, b}].Data, Key: &pb.EnvelopeKeyRecord{}}
+		case "nokey":
+			rec = &pb.DataRowRecord{Data: e.recs[[2]int{a, b}].Data}
+		case "nodata":
+			rec = &pb.DataRowRecord{Key: e.recs[[2]int{a, b}].Key}
 		case "none":
 			rec = nil
 		}
@@ -167,7 +176,10 @@ func (e *srvEnv) run(cs *srvCase) {
 	}
 }
 
-var srvAlphabet = []string{"gs:a", "gs:", "gs:bb", "enc:1", "dec:1:1:g", "dec:2:1:g", "dec:1:2:bad", "dec:1:1:none", "empty"}
+var srvAlphabet = []string{"gs:a", "gs:", "gs:bb", "enc:1", "dec:1:1:g", "dec:2:1:g", "dec:1:2:bad", "dec:1:1:none", "empty", "dec:1:1:noparent", "dec:1:2:nokey"}
+
+// record shapes used only by the random sequences
+var srvRare = []string{"dec:1:1:emptykey", "dec:1:1:nodata", "dec:2:2:noparent", "dec:2:1:nokey", "dec:1:2:g", "dec:2:2:g", "enc:2"}
 
 func runSrv(a *args) error {
 	log.SetOutput(io.Discard)
@@ -207,7 +219,11 @@ func runSrv(a *args) error {
 		n := 4 + r.Intn(12)
 		cs := &srvCase{}
 		for j := 0; j < n; j++ {
-			cs.Reqs = append(cs.Reqs, gen.Pick(r, srvAlphabet))
+			if r.Chance(1, 5) {
+				cs.Reqs = append(cs.Reqs, gen.Pick(r, srvRare))
+			} else {
+				cs.Reqs = append(cs.Reqs, gen.Pick(r, srvAlphabet))
+			}
 		}
 		e.run(cs)
 		out = append(out, cs)
